@@ -111,7 +111,7 @@ func c10Specs() []*edt.Spec {
 			Assume: map[string]edt.Assumption{"isnil(err(" + Y + "))": {Val: true, Why: "field SetBytes fails only on a wrong length; the argument is a 32-byte array"}},
 			Classify: func(p *edt.Path, out string, e *edt.Env) string {
 				switch out {
-				case "nil ; @curve.errNotValidYCoordinate":
+				case "nil ; errvar(@curve.errNotValidYCoordinate)":
 					return "invalid"
 				case "ptr($p) ; nil":
 					return "decoded"
